@@ -168,7 +168,7 @@ Proof.
     destruct (is_ancestor (S (length (f_heap s))) (f_heap s) (v_root (sv_view sv)) oc np); [reflexivity|].
     rewrite !(admin_may_delete s sv _ _ _ H) by assumption. rewrite Hsd.
     rewrite (admin_kperm s sv np 3 H) by assumption. rewrite (admin_kperm s sv oc 2 H) by assumption.
-    cbn [negb andb]. rewrite andb_false_r.
+    rewrite (sh_admin _ _ H). cbn [negb andb]. rewrite !andb_false_r. cbn [andb].
     destruct (node_is_dir_get _ _ Fo2) as (cho & mo & Hgo'). destruct (node_is_dir_get _ _ Fn2) as (chn & mn & Hgn').
     rewrite (move_commute _ _ _ _ _ _ cho mo chn mn Hgo' Hgn') by (intros -> ->; congruence). reflexivity.
   - pose proof (Hong _ _ _ eq_refl) as ->. destruct Fo as (Fo1 & _). destruct Ro as (O1 & _). rewrite O1, Fo1. reflexivity.
